@@ -105,18 +105,26 @@ Fixpoint recover (g : gen) (shard : N) (rs : list N) (stored : list N)
   end.
 
 (** One process lifetime of a shard: recover the WAL ids, then apply [k] new STOREs.
-    Result: ids of the memtable in apply order (recovered, then new) and the final state. *)
-Definition lifetime (shard : N) (stored : list N) (k : nat) (rs : list N) : list N * gen :=
+    Result: the recovered ids and the new ids (memtable = recovered ++ new, in apply order)
+    and the final generator state. *)
+Definition lifetime (shard : N) (stored : list N) (k : nat) (rs : list N)
+  : list N * list N * gen :=
   let '(rec_ids, g1, rs1) := recover gen0 shard rs stored in
   let '(new_ids, g2, _) := issue k g1 shard rs1 in
-  (rec_ids ++ new_ids, g2).
+  (rec_ids, new_ids, g2).
 
-(** Two lifetimes of one shard with a restart in between: the ids the shard has applied,
-    in apply order (the WAL still holds every id of the first lifetime). *)
+(** Two lifetimes of one shard with a restart in between, as ids in apply order. *)
 Definition two_lifetimes (shard : N) (k1 : nat) (rs1 : list N) (k2 : nat) (rs2 : list N)
   : list N :=
-  let ids1 := issued k1 gen0 shard rs1 in
-  ids1 ++ issued k2 gen0 shard rs2.
+  issued k1 gen0 shard rs1 ++ issued k2 gen0 shard rs2.
+
+(** What the shard holds after: a first lifetime of [k1] STOREs, a restart that recovers every
+    id of the first lifetime from the WAL, and [k2] further STOREs. *)
+Definition restart_history (shard : N) (k1 : nat) (rs1 : list N) (k2 : nat) (rs2 : list N)
+  : list N :=
+  let '(_, ids1, _) := lifetime shard [] k1 rs1 in
+  let '(rec_ids, new_ids, _) := lifetime shard ids1 k2 rs2 in
+  rec_ids ++ new_ids.
 
 (** Known failing class across a restart: the first clock reading of the new lifetime does
     not exceed the last millisecond the previous lifetime used. *)
